@@ -158,7 +158,7 @@ def rule_token(ck):
     where = "types::Token.__init__"
     ck.instance("token-snapshots", {"(aliases, start.pos, end.pos, file, code, class) after moving the live context": repr(ps[0].value)}, fn=where)
     if len(ps) != 1 or ps[0].kind != "return":
-        raise Unknown(f"Token.__init__: {ps}")
+        return ck.incomplete(where, "Token.__init__", ps)
     same, sp, ep, fname, code, cname = ps[0].value
     if any(same):
         ck.violation(where, "a token keeps the live parser context instead of a snapshot: its span moves as parsing continues", construct="Token stores live context")
@@ -400,10 +400,58 @@ def rule_render_columns(ck):
                                     "the highlight is not under the offending token", construct="graphical highlight column")
 
 
+
+def rule_spans(ck):
+    """Every token the real parser builds from the statement corpus: start <= end, both inside the text, and the text between
+    them is the token's own text for names and numbers (a span is what a diagnostic underlines)."""
+    from .c05 import run_parser
+    from .c10 import CORPUS, _respell
+    repo = ck.repo
+    I = eager_interp(repo)
+    where = "parser::code"
+    n = 0
+    for pieces in CORPUS:
+        text = _respell(pieces, "plain")
+        r, pos, errs, raised = run_parser(I, "code", text)
+        if raised or errs or r is None:
+            raise Unknown(f"corpus statement {text!r} does not parse cleanly (errors {errs}, raised {raised})")
+        seen = set()
+        stack = [r]
+        while stack:
+            t = stack.pop()
+            if isinstance(t, (list, tuple)):
+                stack.extend(t)
+                continue
+            if not isinstance(t, Rec) or id(t) in seen:
+                continue
+            seen.add(id(t))
+            f = t.fields
+            stack.extend(v for k, v in f.items() if k not in ("ctx_start", "ctx_end"))
+            a, b = f.get("ctx_start"), f.get("ctx_end")
+            if not (isinstance(a, Rec) and isinstance(b, Rec)):
+                continue
+            pa, pb = a.fields.get("pos"), b.fields.get("pos")
+            n += 1
+            ck.instance(("span", text.strip(), t.cls.name, pa, pb), {"statement": text.strip(), "token": t.cls.name, "span": [pa, pb], "text": text[pa:pb] if isinstance(pa, int) and isinstance(pb, int) else None} if n % 23 == 0 else None, fn=where)
+            cons = f"span of {t.cls.name} tokens"
+            if not (isinstance(pa, int) and isinstance(pb, int)) or not (0 <= pa <= pb <= len(text)):
+                ck.violation(where, f"in {text.strip()!r} the {t.cls.name} token spans {pa}..{pb} (text length {len(text)}): a span starts before it ends and lies inside the text - "
+                                    "a diagnostic for this token underlines nothing, or the wrong place", construct=cons)
+                continue
+            inner = text[pa:pb]
+            if t.cls.name == "Symbol" and isinstance(f.get("name"), str) and inner.strip() and inner.strip().lower().rstrip(":").strip() != f["name"].lower():
+                ck.violation(where, f"in {text.strip()!r} the symbol {f['name']!r} spans {pa}..{pb}, which is the text {inner!r}", construct=cons)
+            if t.cls.name == "Number" and isinstance(f.get("representation"), str) and not (inner.strip() and f["representation"].strip().lower().endswith(inner.strip().lower())):     # a folded sign ('-1') stays outside the span of its digits
+                ck.violation(where, f"in {text.strip()!r} the number {f['representation']!r} spans {pa}..{pb}, which is the text {inner!r}", construct=cons)
+    if n < 150:
+        ck.unknown(f"only {n} token spans inspected")
+
+
 def run(ck):
     ck.run_rule("C17.init", "token classes pass their source positions to Token.__init__", 10, rule_token_init)
     ck.run_rule("C17.render", "graphical handler: the highlight follows the fault's display column (tab = 4), the excerpt shows the fault's line", 20, rule_render_columns)
     ck.run_rule("C17.perr", "faults planted in malformed statements: the first span of the first error starts at the offending token", 9, rule_parse_error_positions)
+    ck.run_rule("C17.span", "tokens built by the real parser (statement corpus): start <= end inside the text; names and numbers span their own text", 150, rule_spans)
     ck.run_rule("C17.hoist", "nodes rebuilt by hoisting keep the spans of the text they stand for", 6, rule_hoist_spans)
     from ..rules import deliver
     ck.run_rule("R.deliver", "the handler receives a report's spans as given: the first span is the culprit", 6, deliver.rule_deliver)
